@@ -78,6 +78,7 @@ def generate(tier):
 
 def check(v, tier):
     binary = xp.build_xp()
+    xp.init_canon(binary)
     reqs = list(generate(tier))
     alone_src = {}
     inputs = []
